@@ -6,7 +6,7 @@ import hashlib, hmac as pyhmac, json
 import common
 from common import blit
 
-PREAMBLE = ("From PK Require Import Lib.Bytes Lib.Check Auth.CeremonyCheck.\n"
+PREAMBLE = ("From PK Require Import Lib.Bytes Lib.Check Lib.Sha256 Auth.CeremonyCheck.\n"
             "Open Scope N_scope.\n")
 COQ_TARGETS = ["theories/Auth/CeremonyCheck.vo"]
 HARNESS_BINS = ["ceremony"]
@@ -422,7 +422,7 @@ def standard_check(run, prop, scenarios, meta, coq_oracles, py_oracle=None, coq_
             run.violation({"kind": "model and implementation disagree; every oracle true on all %d observations of this run" % len(terms),
                            "broken": "correspondence ceremony/%s (Auth.CeremonyCheck.agree, replay of the call log)" % op["op"],
                            "scenario": scenarios[si], "op_index": oi, "observed": obs,
-                           "model": common.coq_show(prop, PREAMBLE, "match (%s) with CMake c q log qs ht _ => inl (replay (make_credential c q) log qs 0) | CGet c q log qs ht _ => inr (inl (replay (get_assertion (ad_bytes (lookup_hash ht)) c q) log qs 0)) | CInfo c log _ => inr (inr (replay (get_info c) log (Build_queues [] [] [] []) 0)) end" % t)[-3000:]},
+                           "model": common.coq_show(prop, PREAMBLE, "match (%s) with CMake c q log qs ht _ => inl (replay (make_credential c q) log qs 0) | CGet c q log qs ht _ => inr (inl (replay (get_assertion (ad_bytes Sha256.sha256) c q) log qs 0)) | CInfo c log _ => inr (inr (replay (get_info c) log (Build_queues [] [] [] []) 0)) end" % t)[-3000:]},
                           found_input=False)
     files = ["theories/Auth/Prog.v", "theories/Auth/Monitor.v", "theories/Auth/Effects.v", "theories/Props/%s.v" % prop] + list(coq_files)
     n_lem = common.count_lemmas(files)
@@ -468,3 +468,185 @@ def replay(payload):
     sc = payload.get("scenario")
     print(json.dumps(common.harness_one(binary, sc))[:4000])
     return 0
+
+
+# --------------------------------------------------------------------------------------------
+# random multi-operation histories (shared generator)
+
+RPS = ["example.com", "login.example.com", "other.org", "xn--bcher-kva.example"]
+COUNTERS = [None, 0, 1, 5, 2**31 - 1, 2**31, 2**32 - 2, 2**32 - 1]
+STORE_KINDS = ["ref", "ref", "memory", "option", "arc_mutex_memory", "arc_rwlock_memory", "mutex_memory", "rwlock_memory",
+               "arc_mutex_option", "arc_rwlock_ref", "arc_mutex_ref"]
+
+
+def gen_content(rng, kind, n_rps=3, with_hmac=False, contract_only=False):
+    content = []
+    if kind in ("option", "arc_mutex_option"):
+        n = rng.choice([0, 1, 1])
+    else:
+        n = rng.randrange(0, 7)
+    for i in range(n):
+        rp = RPS[rng.randrange(n_rps)]
+        hm = None
+        if with_hmac and rng.random() < 0.7:
+            hm = (bytes(rng.randrange(256) for _ in range(32)), bytes(rng.randrange(256) for _ in range(32)) if rng.random() < 0.6 else None)
+        uh = rng.choice([b"\x01\x02", b"\x01\x02", bytes([i]), None])      # identical user handles across RPs on purpose
+        content.append(mk_passkey(rng, rp, cred_id=bytes([0xC0 + i]) * rng.choice([16, 16, 20, 1]), user_handle=uh,
+                                  counter=rng.choice(COUNTERS), hmac=hm, keyidx=i % 6))
+    return content
+
+
+def gen_history(rng, tier="quick", kinds=None, with_hmac=False, faults=False, cancel=False, contract_only=False, max_ops=5):
+    kind = rng.choice(kinds or STORE_KINDS)
+    content = gen_content(rng, kind, with_hmac=with_hmac)
+    ids_by_rp = {}
+    for p in content:
+        ids_by_rp.setdefault(bytes.fromhex(p["rp_id"]).decode(), []).append(bytes.fromhex(p["cred_id"]))
+    all_ids = [bytes.fromhex(p["cred_id"]) for p in content]
+    cfg = {"counter": rng.random() < 0.5, "id_len": rng.choice([0, 15, 16, 17, 32, 63, 64, 65, 255]),
+           "hmac": rng.choice([None, None, {"without_uv": False, "on_mc": False}, {"without_uv": True, "on_mc": False},
+                               {"without_uv": False, "on_mc": True}, {"without_uv": True, "on_mc": True}]) if with_hmac else None,
+           "aaguid": bytes(rng.randrange(256) for _ in range(16)).hex()}
+    verif = rng.choice([True, True, True, False, None])
+    script = []
+    ops = []
+    for _ in range(rng.randrange(1, max_ops + 1)):
+        r = rng.random()
+        rp = RPS[rng.randrange(3)]
+        uv = rng.random() < 0.5
+        script.append(rng.choice([{"presence": True, "verification": True}] * 6 + [{"presence": True, "verification": False},
+                                  {"presence": False, "verification": True}, {"err": 0x27}]))
+        def idlist(own):
+            c = rng.randrange(6)
+            mine = ids_by_rp.get(rp, [])
+            foreign = [i for i in all_ids if i not in mine]
+            if c == 0: return None
+            if c == 1: return []
+            if c == 2 and mine: return rng.sample(mine, rng.randrange(1, len(mine) + 1))
+            if c == 3: return [bytes([0xEE]) * 16]
+            if c == 4 and foreign and not contract_only: return [rng.choice(foreign)] + (mine[:1] if rng.random() < 0.5 else [])
+            return (mine[:1] + [bytes([0xEE]) * 16]) if mine else [bytes([0xEE]) * 16]
+        if r < 0.4:
+            ext = None
+            if with_hmac and rng.random() < 0.7:
+                f = bytes(rng.randrange(256) for _ in range(32)); s = bytes(rng.randrange(256) for _ in range(32))
+                ext = prf_ext_mc(first=rng.choice([f, None]), second=rng.choice([s, None]), hmac_secret=rng.choice([None, True, False]),
+                                 mc=rng.random() < 0.1, with_prf=rng.random() < 0.8)
+                if ext["prf"] and ext["prf"]["eval"] is None: pass
+                if ext["prf"] and ext["prf"]["eval"] and ext["prf"]["eval"]["first"] is None: ext["prf"]["eval"] = None
+            ops.append({"op": "make_credential",
+                        "req": mc_req(rng, rp=rp, rk=rng.random() < 0.5, uv=uv, up=rng.random() < 0.95,
+                                      params=rng.choice([(-7,), (-257, -7), (-8, -7, -257), (-257,), ()]),
+                                      exclude=idlist(False), ext=ext, pin_auth=rng.random() < 0.03,
+                                      user_id=rng.choice([b"\x01\x02", bytes(rng.randrange(256) for _ in range(rng.choice([1, 16, 64])))]),
+                                      rp_name=rng.choice([None, "Example", "Éxämple ✓"]), name=rng.choice(["wendy", "", "名前"]))})
+        elif r < 0.92:
+            ext = None
+            if with_hmac and rng.random() < 0.7:
+                f = bytes(rng.randrange(256) for _ in range(32)); s = bytes(rng.randrange(256) for _ in range(32))
+                by = None
+                if rng.random() < 0.4 and all_ids:
+                    ks = rng.sample(all_ids, min(len(all_ids), rng.randrange(1, 3)))
+                    by = [(k, bytes(rng.randrange(256) for _ in range(32)), rng.choice([None, s])) for k in ks]
+                ext = prf_ext_ga(first=rng.choice([f, f, None]), second=rng.choice([s, None]), by_cred=by,
+                                 hmac_secret=rng.random() < 0.1, with_prf=rng.random() < 0.85)
+                if ext["prf"] and ext["prf"]["eval"] and ext["prf"]["eval"]["first"] is None: ext["prf"]["eval"] = None
+            ops.append({"op": "get_assertion",
+                        "req": ga_req(rng, rp=rp, allow=idlist(True), uv=uv, up=rng.random() < 0.9, rk=rng.random() < 0.03,
+                                      ext=ext, pin_auth=rng.random() < 0.03)})
+        else:
+            ops.append({"op": "get_info"})
+    sc = scenario(store_kind=kind, content=content, config=cfg, disc=rng.choice(["full", "only_non", "forced"]),
+                  empty_is_err=rng.random() < 0.5,
+                  user={"verif_enabled": verif, "presence_enabled": rng.random() < 0.9, "script": script}, ops=ops)
+    if faults and rng.random() < 0.7:
+        sc["faults"] = [{"at": rng.randrange(0, 8), "code": rng.choice([0x01, 0x28, 0x2E, 0x7F, 0xF0, 0x19, 0x27])}
+                        for _ in range(rng.choice([1, 1, 2]))]
+    if cancel and rng.random() < 0.6:
+        sc["yield"] = True
+        sc["ops"][rng.randrange(len(ops))]["cancel_after"] = rng.randrange(1, 9)
+    return sc
+
+
+def history_meta(sc):
+    return (sc["store"]["kind"], len(sc["store"]["content"]), json.dumps(sc["config"], sort_keys=True)[:80],
+            tuple((o["op"], json.dumps(o.get("req", {}).get("opts")), str(o.get("req", {}).get("allow", o.get("req", {}).get("exclude")))[:40],
+                   o.get("cancel_after")) for o in sc["ops"]), json.dumps(sc.get("faults")))
+
+
+# --------------------------------------------------------------------------------------------
+# independent Python oracles over a whole history
+
+def registered_keys(sc, out):
+    """credential id -> (x, y) as registered: initial content plus every successful registration"""
+    keys = {p["cred_id"]: (p["key"]["x"], p["key"]["y"]) for p in sc["store"]["content"]}
+    return keys
+
+
+def signature_oracle(sc, out):
+    """every successful assertion carries a DER ECDSA signature that verifies, under the public key
+    registered for the returned credential id, over the returned authenticator data followed by the
+    client data hash; every successful registration returns a valid P-256 point that is d*G for the
+    stored scalar"""
+    fails = []
+    keys = registered_keys(sc, out)
+    for op, obs in zip(sc["ops"], out["ops"]):
+        res = obs["result"]
+        kind = op["op"].replace("trait_", "")
+        if kind == "make_credential" and "ok" in res:
+            a = res["ok"]["auth_data"]["acd"]
+            x, y = int(a["x"], 16), int(a["y"], 16)
+            if len(a["x"]) != 64 or len(a["y"]) != 64 or not on_curve(x, y):
+                fails.append("registration returned a point that is not on P-256")
+            saved = [p for p in obs["store_after"] if p["cred_id"] == a["cred_id"]]
+            if saved and saved[0]["key"]["d"]:
+                if pub_of(int(saved[0]["key"]["d"], 16)) != (x, y):
+                    fails.append("stored private scalar does not match the returned public key")
+            keys[a["cred_id"]] = (a["x"], a["y"])
+        if kind == "get_assertion" and "ok" in res:
+            o = res["ok"]
+            xy = keys.get(o["cred_id"])
+            if xy is None:
+                fails.append("assertion names a credential id that was never registered")
+                continue
+            msg = bytes.fromhex(o["auth_data"]["bytes"]) + bytes.fromhex(op["req"]["cdh"])
+            if not ecdsa_verify(int(xy[0], 16), int(xy[1], 16), msg, der_sig(bytes.fromhex(o["signature"]))):
+                fails.append("signature does not verify over authenticatorData || clientDataHash under the registered key")
+            if o["auth_data"]["rp_id_hash"] != sha256(bytes.fromhex(op["req"]["rp_id"])).hex():
+                fails.append("rpIdHash is not SHA-256 of the RP ID")
+    return fails
+
+
+def matching(content, ids, rp_hex):
+    return sorted(p["cred_id"] for p in content if p["rp_id"] == rp_hex and (ids is None or p["cred_id"] in ids))
+
+
+def find_contract_oracle(sc, out):
+    """each lookup answer = exactly the stored credentials for that RP (and id list).
+    returns (violations, known) where known lists departures inside the recorded MemoryStore classes"""
+    viol, known = [], []
+    content = sc["store"]["content"]
+    if sc["store"]["kind"] in ("option", "arc_mutex_option"):
+        content = content[-1:]
+    mem = "memory" in sc["store"]["kind"]
+    faulted = bool(sc.get("faults"))
+    for op, obs in zip(sc["ops"], out["ops"]):
+        for e in obs["log"]:
+            if e["c"] != "find":
+                continue
+            want = matching(content, e["ids"], e["rp"])
+            got = sorted(p["cred_id"] for p in e["r"]["ok"]) if "ok" in e["r"] else ([] if e["r"]["err"] == 0x2E else None)
+            if got is None:
+                if not faulted:
+                    viol.append("lookup failed with status %d on a store that holds %s" % (e["r"]["err"], want))
+                continue
+            if got != want:
+                if mem and e["ids"] is None and want and not got:
+                    known.append(("memory-store-idless-lookup", "MemoryStore::find_credentials(None, rp) answers NoCredentials although it holds credentials for that RP"))
+                elif mem and e["ids"] is not None and set(want) <= set(got) and all(
+                        any(p["cred_id"] == g and p["rp_id"] != e["rp"] for p in content) for g in set(got) - set(want)):
+                    known.append(("memory-store-ignores-rp-id", "MemoryStore::find_credentials returns a credential whose rp_id differs from the requested RP ID"))
+                else:
+                    viol.append("lookup for rp=%s ids=%s returned %s, contract says %s" % (e["rp"], e["ids"], got, want))
+        content = obs["store_after"]
+    return viol, known
